@@ -968,8 +968,10 @@ def generate(rng, tier, n):
         r = rng.below(100)
         if r < 70:
             cases.append(gen_doc_case(rng))
-        elif r < 94:
+        elif r < 88:
             cases.append(FULL.gen_full_case(rng, mk_doc, to_json))
+        elif r < 94:
+            cases.append(FULL.gen_matrix_case(rng, mk_doc, to_json))
         else:
             cases.append(gen_raw_case(rng))
     return cases
@@ -1035,6 +1037,8 @@ def oracle(c, impl):
         c = dict(c, op='doc')
     if c['op'] == 'full':
         return FULL.oracle(c, impl)
+    if c['op'] == 'matrix':
+        return FULL.oracle_matrix(c, impl)
     d = c['doc']
     known = py_known(d)
     expected = sorted(py_spec(d))
